@@ -90,4 +90,6 @@ def work_C14(run, rng, budget):
     run.assumptions.append("CPython's thread switching inside the ANTLR runtime, networkx and igraph is sampled, not modelled")
     return "a workload of molfile->TUCAN, read, parse, normalise and write operations (with rejected strings interleaved) run " \
            "in fresh subprocesses under several PYTHONHASHSEED values and call orders, and from 8 threads with a 1 microsecond " \
-           "switch interval; every result compared with the in-process result; one case = one (process, operation)"
+           "switch interval; every result compared with the in-process result; after each call the caller scribbles on the " \
+           "returned graphs (and serialises parsed graphs in place), and every operation is run a second time later in the " \
+           "same process, so a shared or cached mutable result shows; one case = one (process, operation)"
